@@ -177,7 +177,11 @@ impl LazyScopedVariables {
     }
 
     pub(super) fn evaluate_all(&self, exec: &mut EvaluationContext) -> Result<(), ExecutionError> {
-        for (name, cell) in &self.variables {
+        // forced in name order, so that the error reported when several variables
+        // are faulty does not depend on hash order
+        let mut variables = self.variables.iter().collect::<Vec<_>>();
+        variables.sort_by(|a, b| a.0.cmp(b.0));
+        for (name, cell) in variables {
             let values = cell.replace(ScopedValues::Forcing);
             let map = self.force(name, values, exec)?;
             cell.replace(ScopedValues::Forced(map));
